@@ -637,3 +637,211 @@ Qed.
 
 Lemma S_thread fuel t os : Forall op_ok os -> SAFE (thread_prog fuel t os).
 Proof. intros H. unfold thread_prog. nx. now apply S_run_ops. Qed.
+
+(** ** the initial state *)
+Fixpoint nodes_ok (nodes : list (nat * nat)) : Prop :=
+  match nodes with
+  | [] => True
+  | (k, h) :: r => (k < 8)%nat /\ (1 <= h <= MAXH)%nat /\ Forall (fun kh => (k < fst kh)%nat) r /\ nodes_ok r
+  end.
+
+Lemma pre_node_key k : (k < 8)%nat -> key_of (pre_node k) = Z.of_nat k.
+Proof. intros H. unfold pre_node. now apply mk_node_key. Qed.
+Lemma pre_node_inj k k' : pre_node k = pre_node k' -> k = k'.
+Proof. unfold pre_node, mk_node. lia. Qed.
+Lemma pre_node_not_head k : pre_node k <> head.
+Proof. unfold pre_node, mk_node, head. lia. Qed.
+
+Lemma next_at_in l r : next_at l r = null \/ exists k h, In (k, h) r /\ next_at l r = pre_node k.
+Proof.
+  induction r as [|[k h] r IH]; cbn [next_at]; [now left|].
+  destruct (Nat.ltb l h); [right; exists k, h; split; [now left|reflexivity]|].
+  destruct IH as [IH|(k' & h' & Hin & E)]; [now left|right]. exists k', h'. split; [now right|exact E].
+Qed.
+
+Lemma nodes_ok_in nodes k h : nodes_ok nodes -> In (k, h) nodes -> (k < 8)%nat /\ (1 <= h <= MAXH)%nat.
+Proof.
+  induction nodes as [|[k' h'] r IH]; cbn [nodes_ok In]; [tauto|]. intros (H1 & H2 & H3 & H4) [E|Hin]; [inversion E; subst; auto|auto].
+Qed.
+
+Lemma link_all_spec nodes : nodes_ok nodes ->
+  let g := link_all nodes g_empty in
+  (forall p l, lnk l p (fst (nxt g p l))) /\ HB g /\ (forall l, nxt g head l = (null, false)).
+Proof.
+  induction nodes as [|[k h] r IH]; cbn [nodes_ok link_all].
+  - intros _. repeat split; [intros p l; now left|intros p; cbn; unfold MAXH; lia].
+  - intros (Hk & Hh & Hlt & Hr). destruct (IH Hr) as (I1 & I2 & I3). cbv zeta. repeat split.
+    + intros p l. cbn [nxt]. destruct (Nat.eqb_spec p (pre_node k)) as [->|Np]; [|apply I1].
+      destruct (Nat.ltb l h); [|now left]. cbn [fst].
+      destruct (next_at_in l r) as [->|(k' & h' & Hin & ->)]; [now left|right].
+      rewrite Forall_forall in Hlt. specialize (Hlt _ Hin). cbn [fst] in Hlt.
+      destruct (nodes_ok_in _ _ _ Hr Hin) as [Hk' _].
+      split; [apply mk_node_isnode|]. right. split; [apply mk_node_isnode|].
+      rewrite !pre_node_key by assumption. destruct l; lia.
+    + intros p. cbn [hgt_of]. unfold upd1. destruct (Nat.eqb p (pre_node k)); [lia|apply I2].
+    + intros l. cbn [nxt]. destruct (Nat.eqb_spec head (pre_node k)) as [E|_]; [exfalso; eapply pre_node_not_head; eauto|apply I3].
+Qed.
+
+Lemma init_ok_state nodes : nodes_ok nodes -> I (init nodes) /\ HB (init nodes).
+Proof.
+  intros Hn. destruct (link_all_spec nodes Hn) as (I1 & I2 & I3). unfold init. split.
+  - intros p l. cbn [nxt]. destruct (Nat.eqb_spec p head) as [->|_]; [|apply I1]. cbn [fst].
+    destruct (next_at_in l nodes) as [->|(k' & h' & Hin & ->)]; [now left|right]. split; [apply mk_node_isnode|now left].
+  - exact I2.
+Qed.
+
+Lemma init_cfg_ok fuel nodes ths :
+  nodes_ok nodes -> Forall (Forall op_ok) ths -> Conc.cfg_ok view Inv (init_cfg fuel nodes ths).
+Proof.
+  intros Hn Ho. exists tt. split; [exact (init_ok_state nodes Hn)|].
+  intros t p Hp. unfold init_cfg in Hp. cbn [Conc.threads] in Hp. rewrite nth_error_map in Hp.
+  destruct (nth_error (combine (seq 0 (List.length ths)) ths) t) as [[t' os]|] eqn:E; [|discriminate].
+  injection Hp as <-. cbn [fst snd]. apply S_thread.
+  apply nth_error_In in E. apply in_combine_r in E. rewrite Forall_forall in Ho. now apply Ho.
+Qed.
+
+(** ** the theorem: for every schedule, every link is in key order *)
+Theorem skip_links_sorted fuel nodes ths c :
+  nodes_ok nodes -> Forall (Forall op_ok) ths ->
+  Conc.reach (init_cfg fuel nodes ths) c -> I (Conc.shared c).
+Proof.
+  intros Hn Ho Hr. destruct (Conc.reach_Inv (init_cfg_ok fuel nodes ths Hn Ho) Hr) as (a & Hi & _). exact Hi.
+Qed.
+
+(** the nodes reachable from [p] by at most [n] links at level [l] (marks ignored: logically deleted nodes that are
+    still linked are included, so the statement below is about more than the abstract set) *)
+Fixpoint chain (g : G) (l : nat) (p : ptr) (n : nat) : list ptr :=
+  match n with
+  | O => []
+  | S n' => let q := fst (nxt g p l) in if Nat.eqb q null then [] else q :: chain g l q n'
+  end.
+
+Fixpoint strictly_inc (l : list Z) : Prop :=
+  match l with
+  | [] => True
+  | x :: r => Forall (Z.lt x) r /\ strictly_inc r
+  end.
+Fixpoint weakly_inc (l : list Z) : Prop :=
+  match l with
+  | [] => True
+  | x :: r => Forall (Z.le x) r /\ weakly_inc r
+  end.
+
+Lemma chain_sorted0 g : I g -> forall n p, (p = head \/ isnode p) ->
+  Forall (fun q => isnode q /\ (p = head \/ key_of p < key_of q)) (chain g 0 p n) /\ strictly_inc (map key_of (chain g 0 p n)).
+Proof.
+  intros Hi. induction n as [|n IH]; intros p Hp; cbn [chain]; [split; [constructor|exact Logic.I]|].
+  cbv zeta. destruct (Nat.eqb (fst (nxt g p 0)) null) eqn:E; [split; [constructor|exact Logic.I]|].
+  pose proof (lnk_ltp _ _ _ (Hi p 0%nat) (eqb_null _ E)) as (Hq & Hpq).
+  destruct (IH (fst (nxt g p 0)) (or_intror Hq)) as [F S]. cbn [map strictly_inc]. split.
+  - constructor; [split; [exact Hq|destruct Hpq as [->|(_ & H)]; auto]|].
+    eapply Forall_impl; [|exact F]. intros q (Hq1 & Hq2). split; [exact Hq1|].
+    destruct Hpq as [->|(_ & H)]; [now left|right]. destruct Hq2 as [Hq2|Hq2]; [unfold isnode, head in *; lia|lia].
+  - split; [|exact S]. rewrite Forall_map. eapply Forall_impl; [|exact F]. intros q (_ & [H|H]); [unfold isnode, head in *; lia|exact H].
+Qed.
+
+Lemma chain_sortedL g l : I g -> forall n p, (p = head \/ isnode p) ->
+  Forall (fun q => isnode q /\ (p = head \/ key_of p <= key_of q)) (chain g l p n) /\ weakly_inc (map key_of (chain g l p n)).
+Proof.
+  intros Hi. induction n as [|n IH]; intros p Hp; cbn [chain]; [split; [constructor|exact Logic.I]|].
+  cbv zeta. destruct (Nat.eqb (fst (nxt g p l)) null) eqn:E; [split; [constructor|exact Logic.I]|].
+  pose proof (lnk_ltp _ _ _ (Hi p l) (eqb_null _ E)) as (Hq & Hpq).
+  assert (Hle : p = head \/ key_of p <= key_of (fst (nxt g p l))) by (destruct Hpq as [->|(_ & H)]; [now left|right; destruct l; lia]).
+  destruct (IH (fst (nxt g p l)) (or_intror Hq)) as [F S]. cbn [map weakly_inc]. split.
+  - constructor; [split; assumption|].
+    eapply Forall_impl; [|exact F]. intros q (Hq1 & Hq2). split; [exact Hq1|].
+    destruct Hle as [->|H]; [now left|right]. destruct Hq2 as [Hq2|Hq2]; [unfold isnode, head in *; lia|lia].
+  - split; [|exact S]. rewrite Forall_map. eapply Forall_impl; [|exact F]. intros q (_ & [H|H]); [unfold isnode, head in *; lia|exact H].
+Qed.
+
+(** level 0: strictly increasing keys — no key twice, whatever the schedule *)
+Theorem skip_level0_sorted_nodup fuel nodes ths c n :
+  nodes_ok nodes -> Forall (Forall op_ok) ths -> Conc.reach (init_cfg fuel nodes ths) c ->
+  strictly_inc (map key_of (chain (Conc.shared c) 0 head n)).
+Proof.
+  intros Hn Ho Hr. apply chain_sorted0; [eapply skip_links_sorted; eauto|now left].
+Qed.
+
+Theorem skip_every_level_sorted fuel nodes ths c l n :
+  nodes_ok nodes -> Forall (Forall op_ok) ths -> Conc.reach (init_cfg fuel nodes ths) c ->
+  weakly_inc (map key_of (chain (Conc.shared c) l head n)).
+Proof.
+  intros Hn Ho Hr. apply chain_sortedL; [eapply skip_links_sorted; eauto|now left].
+Qed.
+
+(** ** the configurations of [run_case] (what the correspondence runs execute) satisfy the hypotheses *)
+Lemma nodes_ok_filter f nodes : nodes_ok nodes -> nodes_ok (filter f nodes).
+Proof.
+  induction nodes as [|[k h] r IH]; cbn [nodes_ok filter]; [auto|]. intros (H1 & H2 & H3 & H4).
+  destruct (f (k, h)); [|auto]. cbn [nodes_ok]. split; [exact H1|]. split; [exact H2|]. split; [|apply IH; exact H4].
+  rewrite Forall_forall in *. intros x Hx. apply H3. apply filter_In in Hx. tauto.
+Qed.
+
+Lemma prefill_nodes_ok cfg : nodes_ok (prefill_nodes cfg).
+Proof.
+  unfold prefill_nodes. apply nodes_ok_filter. cbn [seq map nodes_ok fst]. unfold MAXH.
+  repeat split; try lia; repeat constructor; cbn [fst]; lia.
+Qed.
+
+Lemma decode_ops_ok os : Forall op_ok (decode_ops os).
+Proof.
+  induction os as [|o r IH]; cbn [decode_ops]; [constructor|].
+  destruct (decode_op o) as [x|] eqn:E; [|exact IH]. constructor; [|exact IH].
+  unfold decode_op in E. destruct o as [|c rest]; [discriminate|].
+  destruct (c =? 1).
+  - destruct rest as [|k [|h rest']]; try discriminate; injection E as <-; cbn [op_ok]; unfold MAXH; lia.
+  - destruct (c =? 6); [destruct rest; [discriminate|injection E as <-; exact Logic.I]|].
+    destruct (c =? 10); [destruct rest; [discriminate|injection E as <-; exact Logic.I]|].
+    destruct (c =? 13); [injection E as <-; exact Logic.I|].
+    destruct (c =? 14); [injection E as <-; exact Logic.I|discriminate].
+Qed.
+
+Theorem run_case_level0_sorted cfg ths c n :
+  Conc.reach (init_cfg 60 (prefill_nodes cfg) (map decode_ops ths)) c ->
+  strictly_inc (map key_of (chain (Conc.shared c) 0 head n)).
+Proof.
+  intros Hr. apply (skip_level0_sorted_nodup 60 (prefill_nodes cfg) (map decode_ops ths) c n (prefill_nodes_ok cfg)); [|exact Hr].
+  apply Forall_forall. intros os Hin. apply in_map_iff in Hin. destruct Hin as (x & <- & _). apply decode_ops_ok.
+Qed.
+
+(** ** the client-visible history of a trace, as a [SetSpec] history (extract_min/max -> k presented as erase k,
+    as in checks/C15.py and Proofs/SkipSeqEncoding.v); used to STATE linearizability of the model *)
+From LV Require Import Base.Lin Spec.Specs.
+
+Definition enc_op (code k a b : Z) : set_op :=
+  if code =? 1 then SInsert k
+  else if code =? 6 then SErase k
+  else if code =? 10 then SContains k
+  else if a =? 1 then SErase b
+  else if code =? 13 then SExtractMin else SExtractMax.
+Definition enc_res (code a : Z) : res :=
+  if (code =? 13) || (code =? 14) then (if a =? 1 then RBool true else RVal None) else RBool (a =? 1).
+
+(** the response of thread t's operation invoked at the head of [tr] *)
+Fixpoint first_res (t : nat) (tr : list (nat * ev)) : option (Z * Z) :=
+  match tr with
+  | [] => None
+  | (t', EvCli name [a; b]) :: r => if Nat.eqb t' t && String.eqb name "res" then Some (a, b) else first_res t r
+  | _ :: r => first_res t r
+  end.
+
+Fixpoint history_of (pend : nat -> Z) (tr : list (nat * ev)) : history SetSpec :=
+  match tr with
+  | [] => []
+  | (t, EvCli name [x; y]) :: r =>
+      if String.eqb name "inv" then
+        match first_res t r with
+        | Some (a, b) => @HInv SetSpec t (enc_op x y a b) :: history_of (fun u => if Nat.eqb u t then x else pend u) r
+        | None => @HInv SetSpec t (enc_op x y 0 0) :: history_of (fun u => if Nat.eqb u t then x else pend u) r
+        end
+      else if String.eqb name "res" then @HRes SetSpec t (enc_res (pend t) x) :: history_of pend r
+      else history_of pend r
+  | _ :: r => history_of pend r
+  end.
+
+(** prefilled keys are inserted (by a thread 90) before the run *)
+Definition prefill_history (nodes : list (nat * nat)) : history SetSpec :=
+  flat_map (fun kh => [@HInv SetSpec 90%nat (SInsert (Z.of_nat (fst kh))); @HRes SetSpec 90%nat (RBool true)]) nodes.
+
+Definition client_history (nodes : list (nat * nat)) (tr : list (nat * ev)) : history SetSpec :=
+  prefill_history nodes ++ history_of (fun _ => 0) tr.
